@@ -943,7 +943,29 @@ func ruleVersContainsShape(p *Prog, r *Report) {
 				onlyEmpty = false
 			}
 		}
+		// every answer without an error is a constant decided by the two loops: an answer computed elsewhere
+		// (a fast path's result variable) has seen neither the exclusions nor the intervals
+		computed := ""
+		for _, b := range fn.Blocks {
+			ret, ok := b.Instrs[len(b.Instrs)-1].(*ssa.Return)
+			if !ok || len(ret.Results) != 2 || !isNilConst(ret.Results[1]) {
+				continue
+			}
+			switch v := ret.Results[0].(type) {
+			case *ssa.Const:
+			case *ssa.Phi:
+				for _, ed := range v.Edges {
+					if _, isC := ed.(*ssa.Const); !isC {
+						computed = p.Pos(ret.Pos())
+					}
+				}
+			default:
+				computed = p.Pos(ret.Pos())
+			}
+		}
 		switch {
+		case computed != "":
+			r.Bad("R-VERS-UNION", keyU, p.FnPos(fn), "the return at "+computed+" answers without an error with a value computed outside the exclusion loop and the membership loop: such an answer has not asked the translated intervals")
 		case !exitFalse:
 			r.Bad("R-VERS-UNION", keyU, p.FnPos(fn), "when no native range contains the probe the function does not return false")
 		case !onlyEmpty:
